@@ -19,6 +19,14 @@ def struct_job(fam):
 
 
 JOBS = {
+    "C11": [
+        {"module": "MC_Encode", "spec": "Spec", "invariants": ["InvWFMem", "InvEncode", "InvDecodeBack", "Emit"],
+         "quick": {"constants": {"Full": "FALSE"}, "timeout": 300},
+         "thorough": {"constants": {"Full": "TRUE"}, "timeout": 3000},
+         "rule": "well-formed in-memory values of 19 type classes over field palettes (headers: the product of per-field palettes; messages: "
+                 "8 protected x 3 unprotected x payload x signature/recipient lists with nesting; keys, key sets, claims, party/supp-pub info, KDF "
+                 "contexts, labels, timestamps); each state = one value; all non-trivial"},
+    ],
     "C20": [
         {"module": "MC_Canon", "spec": "Spec", "invariants": ["InvSorted", "InvPairs", "InvIdem", "InvStable", "InvSameKey", "InvF6Exact", "Emit"],
          "quick": {"constants": {"MaxExtras": 2}, "timeout": 300},
